@@ -133,6 +133,16 @@ def run_trace(spec, trace, tmp, timeout=3000):
 
 # ----------------------------------------------------------------------------- known findings
 
+def evidence_path(prop):
+    """evidence/<id>.json - unless this is an exploratory plan or a tree other than /repo (seeded changes): such runs are
+    not what the committed evidence file is to describe, they write to work/evidence-adhoc/"""
+    d = "evidence"
+    if os.environ.get("VERIF_PLAN") or (os.environ.get("REPO") and os.environ.get("REPO") != "/repo"):
+        d = os.path.join("work", "evidence-adhoc")
+    os.makedirs(os.path.join(HERE, d), exist_ok=True)
+    return os.path.join(HERE, d, prop + ".json")
+
+
 def known_findings():
     out = []
     p = os.path.join(HERE, "known-findings.txt")
@@ -377,8 +387,7 @@ def _run_ino(prop, tier, seed, plan, tmp, t0, only_scn):
                 "model-checking results hold for the stated small constants only",
             ],
             wall_s=round(time.time() - t0, 1), violations=len(viols))
-        os.makedirs(os.path.join(HERE, "evidence"), exist_ok=True)
-        json.dump(ev, open(os.path.join(HERE, "evidence", prop + ".json"), "w"), indent=1)
+        json.dump(ev, open(evidence_path(prop), "w"), indent=1)
     log("%s %s seed=%d: %d scenarios, %d validated, %d lines, %d violations, %d known, %.1fs"
         % (prop, tier, seed, nscn, validated, res["total"], len(viols), len(known_hit), time.time() - t0))
     return 1 if viols else 0
